@@ -11,14 +11,15 @@ def add(name, config, primary, quick=(), thorough=(), timeout=1500, mem_gb=14, c
               "bounds": bounds})
 
 # ---- probe set: everything under pseudo property ALL (used for timing only)
-src = open(os.path.join(os.path.dirname(os.path.abspath(__file__)), "harness/src/fam_fut.rs")).read()
-names = re.findall(r"crate::proof!\((\w+),", src)
-for n in names:
-    vec = "_vec" in n
-    full = ("fam_fut::vec_proofs::" if vec else "fam_fut::") + n
-    cfgs = ["alloc"] if vec else ["nostd"]
-    for c in cfgs:
-        add(full, c, "C04", quick=["ALL"])
+for fam in ("fam_fut", "fam_stream"):
+    src = open(os.path.join(os.path.dirname(os.path.abspath(__file__)), "harness/src/%s.rs" % fam)).read()
+    names = re.findall(r"(?:crate::proof|sproof|fair_proof)!\((\w+),", src)
+    for n in names:
+        vec = "_vec" in n
+        full = (fam + "::vec_proofs::" if vec else fam + "::") + n
+        cfgs = ["alloc"] if vec else ["nostd"]
+        for c in cfgs:
+            add(full, c, "C04", quick=["ALL" if fam == "fam_fut" else "ALLS"])
 
 json.dump({"harnesses": H, "assumptions": []}, open("harnesses.json", "w"), indent=1)
 print(len(H), "entries")
